@@ -25,6 +25,7 @@ type Obligation struct {
 	Result  *SolveResult
 	SMTSize int
 	script  string
+	scripts []string
 }
 
 type Exit struct {
@@ -67,6 +68,8 @@ type Verifier struct {
 	cellSeq   int
 	vacProbes, vacOK int
 	suppressObs int
+	forks       []fork
+	noFork      int
 	lockSnap    map[string]*State
 	firstLockSnap *State
 	curCells  *frameCells
@@ -349,6 +352,7 @@ func (v *Verifier) runFunc(fn *ssa.Function, st *State, args []*Value, clo *Clos
 			fr.regs[fv] = x
 		}
 	}
+	v.runGhostEntry(fn, st, args, fc)
 	in := map[*ssa.BasicBlock][]*State{fn.Blocks[0]: {st}}
 	var exits []*Exit
 	// header measure snapshots are stored per state in ghost keys
@@ -464,11 +468,11 @@ func (v *Verifier) cutLoop(fn *ssa.Function, an *fnAnalysis, li *loopInfo, s *St
 			s.cells[cell] = nv
 		}
 	}
-	for _, k := range sortedKeys(li.modHeap) {
-		s.heap[k] = Fresh("Hl!"+k, li.modHeap[k])
-	}
 	if li.calls {
 		s.bumpWM()
+	}
+	for _, k := range sortedKeys(li.modHeap) {
+		s.freshHeap("Hl!", k, li.modHeap[k])
 	}
 	v.rangeIndexInvariant(li, s, fc)
 	ev = v.newEval(s, fn, fc, evalLoop)
@@ -557,8 +561,18 @@ func (v *Verifier) wantTermination(fn *ssa.Function) bool {
 
 // ---------- blocks ----------
 
+type fork struct {
+	st  *State
+	val *Value
+}
+
 func (v *Verifier) execBlock(fn *ssa.Function, an *fnAnalysis, b *ssa.BasicBlock, s *State, fc *frameCells, in map[*ssa.BasicBlock][]*State, exits *[]*Exit) {
-	for _, ins := range b.Instrs {
+	v.execFrom(fn, an, b, 0, s, fc, in, exits)
+}
+
+func (v *Verifier) execFrom(fn *ssa.Function, an *fnAnalysis, b *ssa.BasicBlock, start int, s *State, fc *frameCells, in map[*ssa.BasicBlock][]*State, exits *[]*Exit) {
+	for idx := start; idx < len(b.Instrs); idx++ {
+		ins := b.Instrs[idx]
 		if s.dead {
 			return
 		}
@@ -589,7 +603,25 @@ func (v *Verifier) execBlock(fn *ssa.Function, an *fnAnalysis, b *ssa.BasicBlock
 			s.dead = true
 			return
 		default:
+			saved := v.forks
+			v.forks = nil
 			v.execInstr(fn, s, ins, fc)
+			forks := v.forks
+			v.forks = saved
+			// a call that returned several unmergeable states: continue the rest of the block for each of them
+			for _, f := range forks {
+				if f.st.dead {
+					continue
+				}
+				if _, isRD := ins.(*ssa.RunDefers); isRD {
+					v.execFrom(fn, an, b, idx, f.st, fc, in, exits)
+					continue
+				}
+				if val, ok := ins.(ssa.Value); ok && f.val != nil {
+					v.set(f.st, val, f.val)
+				}
+				v.execFrom(fn, an, b, idx+1, f.st, fc, in, exits)
+			}
 		}
 	}
 }
@@ -779,10 +811,10 @@ func (v *Verifier) execInstr(fn *ssa.Function, s *State, ins ssa.Instruction, fc
 		}
 		s.frame.defers = append(s.frame.defers, deferred{call: t, args: args, fnVal: fv})
 	case *ssa.RunDefers:
-		ds := s.frame.defers
-		s.frame.defers = nil
-		for i := len(ds) - 1; i >= 0; i-- {
-			d := ds[i]
+		for len(s.frame.defers) > 0 {
+			ds := s.frame.defers
+			d := ds[len(ds)-1]
+			s.frame.defers = append([]deferred(nil), ds[:len(ds)-1]...)
 			v.callCommon(s, d.call.Common(), d.fnVal, d.args, d.call.Pos(), nil)
 			if s.dead {
 				return
@@ -807,6 +839,7 @@ func (v *Verifier) heapAlloc(s *State, et types.Type, hint string) *Value {
 	case *types.Struct:
 		r := s.alloc(hint, deepSize(et))
 		s.storeStruct(r, et, zeroValue(et))
+		v.zeroGhost(s, r, et)
 		return scalar(pt, r)
 	case *types.Array:
 		r := s.alloc(hint, 1)
@@ -861,6 +894,13 @@ func (v *Verifier) execUnOp(s *State, t *ssa.UnOp) {
 		nv := &Value{T: t.Type(), L: val.L, LV: val.LV, Clo: val.Clo}
 		if g, ok := t.X.(*ssa.Global); ok {
 			nv.Orig = "global:" + shortPkg(g.Pkg.Pkg.Path()) + "." + g.Name()
+		}
+		if x.LV != nil && x.LV.kind == lvField && len(x.LV.path) == 0 {
+			if _, isFn := under(t.Type()).(*types.Signature); isFn {
+				u := under(x.LV.st).(*types.Struct)
+				nv.Orig = "field:" + typeName(x.LV.st) + "." + u.Field(x.LV.field).Name()
+				nv.OrigObj = x.LV.obj
+			}
 		}
 		v.set(s, t, nv)
 	case token.NOT:
@@ -1344,4 +1384,69 @@ func implementsTerm(tag *Term, it types.Type) *Term {
 		return True
 	}
 	return App("implements!"+typeName(it), SBool, tag)
+}
+
+
+// runGhostEntry executes the `ghostentry` assignments of fn's contract at the start of its body.
+func (v *Verifier) runGhostEntry(fn *ssa.Function, st *State, args []*Value, fc *frameCells) {
+	c := v.contracts.forFunc(fn)
+	if c == nil || len(c.GhostEntry) == 0 {
+		return
+	}
+	env := map[string]*Value{}
+	for i, p := range fn.Params {
+		if i < len(args) {
+			env[p.Name()] = args[i]
+		}
+	}
+	for i, fv := range fn.FreeVars {
+		if val, ok := st.frame.regs[fv]; ok {
+			et := fv.Type().(*types.Pointer).Elem()
+			if val.LV != nil {
+				env[fv.Name()] = st.load(val.LV)
+			} else {
+				env[fv.Name()] = st.loadPtr(val.term(), et)
+			}
+		}
+		_ = i
+	}
+	for _, ga := range c.GhostEntry {
+		ev := &Eval{v: v, st: st, old: st, env: env, mode: evalCall, fc: c, pkg: fnPkg(fn)}
+		rhs := ev.eval(ga.RHS)
+		ev.assignGhost(ga.LHS, rhs)
+	}
+}
+
+
+// zeroGhost initialises the ghost state of a freshly allocated struct object: ghost fields are zero and every embedded
+// sync.Once has not fired.
+func (v *Verifier) zeroGhost(s *State, ref *Term, t types.Type) {
+	u, ok := under(t).(*types.Struct)
+	if !ok {
+		return
+	}
+	if tc := v.contracts.types[typeName(t)]; tc != nil {
+		for _, g := range tc.Ghost {
+			ev := &Eval{v: v, st: s, pkg: typePkg(t)}
+			gt := ev.resolveType(g.Typ)
+			z := zeroValue(gt)
+			for k, hk := range heapKeys("G:"+typeName(t)+"."+g.Name, gt, SInt) {
+				s.heap[hk.name] = Store(s.heapArr(hk.name, hk.sort), ref, z.L[k])
+			}
+		}
+	}
+	if typeName(t) == "sync.Once" {
+		h := s.heapArr("O:ptr", onceSort)
+		s.heap["O:ptr"] = Store(h, ref, False)
+		return
+	}
+	for i := 0; i < u.NumFields(); i++ {
+		ft := u.Field(i).Type()
+		if typeName(ft) == "sync.Once" {
+			n := "O:" + typeName(t) + "." + u.Field(i).Name()
+			s.heap[n] = Store(s.heapArr(n, onceSort), ref, False)
+		} else if isStruct(ft) {
+			v.zeroGhost(s, Add(ref, Int(fieldOffset(u, i))), ft)
+		}
+	}
 }
